@@ -1,14 +1,21 @@
 /-
   C01 — Generated moves are exactly the legal moves of chess; the check test agrees with the rules.
-  FULL STATEMENT and the layers proved so far.
+
+  `generate_moves_exact` is the property for the engine's generator with the tables built from the
+  constants in the source (`MoveGenerator.new`, tables proved exact in Props/C10): for EVERY valid
+  position, no legal move is missing, none illegal is produced, none is duplicated, and the check test is
+  the rules' check test.  Layers: Lemmas/Attacks* (attack sets, king moves, castling), Lemmas/Pseudo*
+  (the seven pseudo-legal generators), Lemmas/Filter* (pins, checkers, double check, en passant).
 -/
-import Flounder.Model.MoveGen
-import Flounder.Spec.Chess
+import Flounder.Lemmas.AttacksKing
+import Flounder.Lemmas.Pseudo
+import Flounder.Lemmas.Filter
+import Flounder.Props.C10
 
 namespace Flounder.Props.C01
-open Flounder Flounder.MoveGenerator
+open Flounder Flounder.MoveGenerator Flounder.Spec
 
-/-- FULL STATEMENT of the property for the model (target of the L1–L7 development of DESIGN.md). -/
+/-- FULL STATEMENT of the property for a generator `g`. -/
 def GenerateMovesExact (g : MoveGenerator) : Prop :=
   ∀ b, Spec.valid b = true →
     (g.generateMoves b).Nodup ∧ (∀ m, m ∈ g.generateMoves b ↔ Spec.legal (Spec.abs b) m = true) ∧
@@ -21,6 +28,68 @@ theorem generated_passed_filter (g : MoveGenerator) (b : Board) (m : Move) :
       m ∈ g.pseudoLegalMoves b ∧
       g.isLegal b m (g.attacksTo b (kingSquare b)) (g.getPinnedPieces b (kingSquare b)) (kingSquare b) = true := by
   simp [generateMoves, List.mem_filter]
+
+/-- L4–L7 assembled: the legality filter is exact on geometrically possible moves. -/
+theorem filter_exact (g : MoveGenerator) (hl : LookupExact g.lookup) : FilterExact g := by
+  intro b hv m hg
+  by_cases hc : m.kind = .castle
+  · exact isLegal_castle hl hv hg hc _ _
+  · by_cases hk : m.piece = .king
+    · exact isLegal_king hl hv hg hk hc _ _ _
+    · exact filter_nonking_isLegal hl (attacksTo_spec hl) b hv m hg (fun h => hk h.1) hc
+
+/-- the property for every generator whose tables are exact. -/
+theorem generate_moves_exact_of (g : MoveGenerator) (hl : LookupExact g.lookup) : GenerateMovesExact g := by
+  intro b hv
+  obtain ⟨hnd, hmem⟩ := pseudo_exact hl b hv
+  refine ⟨?_, ?_, is_in_check_exact hl hv⟩
+  · unfold generateMoves
+    exact hnd.filter _
+  · intro m
+    rw [generated_passed_filter, hmem]
+    unfold Spec.legal
+    rw [pseudo_split (abs b) m]
+    constructor
+    · rintro ⟨hg, hf⟩
+      rw [filter_exact g hl b hv m hg] at hf
+      simp only [Bool.and_eq_true] at hf ⊢
+      exact ⟨⟨hg, hf.1⟩, hf.2⟩
+    · intro h
+      simp only [Bool.and_eq_true] at h
+      refine ⟨h.1.1, ?_⟩
+      rw [filter_exact g hl b hv m h.1.1]
+      simp only [Bool.and_eq_true]
+      exact ⟨h.1.2, h.2⟩
+
+/-- **C01 for the engine**: the generator built from the magic numbers in the source. -/
+theorem generate_moves_exact : GenerateMovesExact MoveGenerator.new :=
+  generate_moves_exact_of MoveGenerator.new Props.C10.lookup_exact
+
+/-- the check test agrees with the rules on every valid position. -/
+theorem is_in_check_exact (b : Board) (hv : Spec.valid b = true) :
+    MoveGenerator.new.isInCheck b = Spec.inCheck (Spec.abs b) :=
+  (generate_moves_exact b hv).2.2
+
+/-- corollary: "no generated move" (how the search detects mate and stalemate) means no legal move exists. -/
+theorem no_moves_iff (b : Board) (hv : Spec.valid b = true) :
+    MoveGenerator.new.generateMoves b = [] ↔ ∀ m, Spec.legal (Spec.abs b) m = false := by
+  obtain ⟨_, hmem, _⟩ := generate_moves_exact b hv
+  constructor
+  · intro he m
+    cases hl : Spec.legal (Spec.abs b) m with
+    | false => rfl
+    | true =>
+      have := (hmem m).2 hl
+      rw [he] at this
+      cases this
+  · intro h
+    cases hgm : MoveGenerator.new.generateMoves b with
+    | nil => rfl
+    | cons m ms =>
+      have hm : m ∈ MoveGenerator.new.generateMoves b := by rw [hgm]; exact List.mem_cons_self
+      have hl := (hmem m).1 hm
+      rw [h m] at hl
+      cases hl
 
 /-- with two or more checkers no non-king move survives the filter. -/
 theorem double_check_only_king_moves (g : MoveGenerator) (b : Board) (m : Move)
@@ -35,9 +104,5 @@ theorem double_check_only_king_moves (g : MoveGenerator) (b : Board) (m : Move)
   · rw [if_neg hk] at hl
     unfold isLegalNonKingMove at hl
     simp [h2] at hl
-
-/-- the check test is "some enemy man attacks the king square" as computed by `attacksTo`. -/
-theorem is_in_check_def (g : MoveGenerator) (b : Board) :
-    g.isInCheck b = (g.attacksTo b (kingSquare b) != 0) := rfl
 
 end Flounder.Props.C01
